@@ -51,6 +51,12 @@ static const OPNMIDI_AudioFormat opn2_DefaultAudioFormat =
 OPNMIDI_EXPORT struct OPN2_MIDIPlayer *opn2_init(long sample_rate)
 {
     OPN2_MIDIPlayer *midi_device;
+    if(sample_rate <= 0)
+    {
+        // The periods of the audio loops are multiples of 1 / rate
+        OPN2MIDI_ErrorString = "Can't initialize OPNMIDI: the sample rate must be positive!";
+        return NULL;
+    }
     midi_device = (OPN2_MIDIPlayer *)malloc(sizeof(OPN2_MIDIPlayer));
     if(!midi_device)
     {
